@@ -58,6 +58,9 @@ def dmd_case(draw):
         # the smallest kept singular value only 25 % above the cut line (1.25e-3 s_0): kept by "s / s[0] > threshold", lost by any
         # other normalisation of the cut
         case['tight_sv'] = r >= 2 and draw(st.booleans())
+        # a coarse cut: threshold 0.3 with the cut singular values at 0.1 ... 0.2 (a sizeable part of the snapshots is discarded, by
+        # the matrix method and by the tensor method alike)
+        case['coarse_cut'] = draw(st.sampled_from([False, False, True]))
     return case
 
 
@@ -109,7 +112,11 @@ def body(c):
         Gm = np.linalg.qr(rng.standard_normal((m, r + small)))[0]
         sv = np.concatenate([np.sort(rng.uniform(0.1, 1.0, r))[::-1], 1e-5 * np.sort(rng.uniform(0.3, 1.0, small))[::-1]])
         sv[0] = 1.0
-        if c.get('tight_sv') and r >= 2:
+        if c.get('coarse_cut'):
+            sv[:r] = np.maximum(sv[:r], 0.5)
+            sv[r:] = 0.2 * rng.uniform(0.5, 1.0, small)
+            sv[0] = 1.0
+        elif c.get('tight_sv') and r >= 2:
             sv[r - 1] = 1.25e-3
         X = scale * ((F * sv) @ Gm.T)
     else:
@@ -151,7 +158,8 @@ def body(c):
     y = to_tt(rng, Y, dims, m, 'ttsvd' if c['rep'] in ('preorth', 'orthonormal') else c['rep'])
     snaps = [(t, build.snapshot(t)) for t in (x, y)]
     f = tdmd.tdmd_exact if c['variant'] == 'exact' else tdmd.tdmd_standard
-    ev, modes = f(x, y, threshold=np.float64(c['threshold']) if c['seed'] % 3 == 0 else c['threshold'], ortho_l=c['flags'][0], ortho_r=c['flags'][1])
+    thr = 0.3 if (c.get('coarse_cut') and c['threshold'] == 1e-3) else c['threshold']
+    ev, modes = f(x, y, threshold=np.float64(thr) if c['seed'] % 3 == 0 else thr, ortho_l=c['flags'][0], ortho_r=c['flags'][1])
     for t, sn in snaps:
         build.require_unchanged(t, sn, 'input of tdmd_' + c['variant'], strict=True)
     ev = np.asarray(ev)
@@ -181,7 +189,9 @@ def body(c):
     lab = {c['variant'], 'rep_' + c['rep']}
     if c.get('ykind') == 'near_symmetric':
         lab.add('nearly_symmetric_dynamics')
-    if c.get('tight_sv') and c['threshold'] == 1e-3 and r >= 2:
+    if c.get('coarse_cut') and c['threshold'] == 1e-3 and c.get('small', 0):
+        lab.add('coarse_cut_0.3')
+    if c.get('tight_sv') and not c.get('coarse_cut') and c['threshold'] == 1e-3 and r >= 2:
         lab.add('singular_value_just_above_the_cut')
     if c.get('update_in_place') and c['flags'] == [True, True] and c['threshold'] != 1e-3:
         # streaming use: the snapshot core of the SAME tensor-train object is replaced (here: snapshots mixed by an invertible
